@@ -50,7 +50,13 @@ RULE = (
     "19-23 second operations on the derived object, for every ACGT string of length <= 3 and listed longer / IUPAC / "
     "protein / general strings; two_features = every ordered pair of invalid-code classes in one array, pairs of awkward "
     "item kinds in one symbol container, two out-of-range codes in every pair of positions for create_kmers, every "
-    "single missing codon; seqhist3 = every triple of 9 content-replacing operations of other sizes with a read in between."
+    "single missing codon; seqhist3 = every triple of 9 content-replacing operations of other sizes with a read in between. "
+    "third audit (family third): + / == / whole-sequence assignment for every ordered pair of operand lengths from "
+    "{0,1,2,3,7,300} and items over larger / smaller alphabets; every ordered pair of 7 ambient-state events (cwd, numpy "
+    "error and print state, locale environment, recursion limit) between repeated calls of a 15-view probe; every value "
+    "that can come from two places (ambiguous flag x each IUPAC letter, explicit class / alphabet x source sequence of "
+    "another alphabet, copy(new code), dtype argument, explicit table x module default); common_alphabet over all "
+    "ordered selections of <= 3 of 6 alphabets; ORFs of all strings up to length 7 for 4 boundary tables (all stop, no stop, all start)."
 )
 ASSUMPTIONS = [
     "alphabets are built from pairwise different symbols (a bijection needs them); 1/True/1.0 are never mixed",
@@ -94,7 +100,8 @@ def bounds(tier):
         "seqapi_len": {"nuc": 4, "iupac": 3 if not q else "3 (2 + seed-chosen third letter block at quick)", "protein": 3 if not q else "2 + seed block", "general": 3},
         "audit": "flavour_letter, flavour_generic (+ alphabets of 255..257 / 65535..65537 symbols, mapper width pairs), flavour_kmer "
                  "(+ n^k around 2^63), seqhist (histories of depth 2), translate_extra (aliasing, argument order, lengths to 65537), "
-                 "identity_derived, two_features, seqhist3 (size-changing histories of depth 3 + reads)",
+                 "identity_derived, two_features, seqhist3 (size-changing histories of depth 3 + reads), third (operand sizes, ambient events, "
+                 "option precedence, selection boundaries)",
         "translate_len": "<=8 (default, 1, syn1, syn2, 2 seed-chosen NCBI), <=6 all 25 NCBI + 4 synthetic, 9 over {A,T,G} (default, 1, syn1, syn2)" if q else
                          "<=8 all 25 NCBI + default + 4 synthetic tables; 9 (all of ACGT) for default, 1, syn1, syn2; 10-11 over {A,T,G} for default, syn1",
     }
@@ -3054,3 +3061,278 @@ def fam_seqhist3(ctx):
 
 
 AUDIT_FAMS.update({"two_features": fam_two_features, "seqhist3": fam_seqhist3})
+
+
+# ---------------------------------------------------------------------------
+# third dimension audit: operand sizes in both directions, ambient state as an event, option precedence,
+# boundaries of selection policies
+# ---------------------------------------------------------------------------
+def fam_third(ctx):
+    import os
+
+    import biotite.sequence as bs
+    from biotite.sequence.align import KmerAlphabet
+
+    fam = "third"
+
+    def J(site, cls, f, want, **kw):
+        r = call(f)
+        if r[0] == "ok":
+            r = ("ok", plain(r[1]))
+        judge(ctx, site, cls, lambda: aud_case(fam, site=site, label=cls, **kw), r, want, 1)
+        ctx.outcome((site, cls, kw.get("k"), r[:2] if r[0] == "ok" else r[1]))
+        return r
+
+    # ---- F: second operand larger than / as large as / smaller than the first, elements the first one lacks ----
+    lens = (0, 1, 2, 3, 7, 300)
+    mkstr = lambda alph, n, off: "".join(alph[(i * 5 + off) % len(alph)] for i in range(n))  # noqa: E731
+    for cls in ("nuc", "nuca", "prot"):
+        alph = seq_alphabet(cls, None)
+        for la in lens:
+            for lb in lens:
+                a, b = mkstr(alph, la, 1), mkstr(alph, lb, 2)
+                J("Sequence.__add__", "sizes", lambda: str(make_seq(cls, None, a) + make_seq(cls, None, b)), ("accept", a + b), k=[cls, la, lb])
+                J("Sequence.__eq__", "sizes", lambda: [bool(make_seq(cls, None, a) == make_seq(cls, None, b)),
+                                                       bool(make_seq(cls, None, b) == make_seq(cls, None, a))], ("accept", [a == b, a == b]), k=[cls, la, lb])
+
+                # assignment of a whole sequence into a slice of another one: exact fit, too long, too short
+                def assign(where):
+                    q = make_seq(cls, None, a)
+                    try:
+                        q[where] = make_seq(cls, None, b)
+                    except Exception:  # noqa: BLE001
+                        return ["refused", str(q)]
+                    return ["ok", str(q)]
+                for where, wname in ((slice(None), "all"), (slice(0, lb), "prefix_of_item_length"), (slice(1, None), "tail")):
+                    npos = len(range(la)[where])
+                    if lb == npos or lb == 1:
+                        new = list(a)
+                        for j, p in enumerate(range(la)[where]):
+                            new[p] = b[j if lb > 1 else 0]
+                        want = ["ok", "".join(new)]
+                    else:
+                        want = ["refused", a]
+                    J("Sequence.__setitem__", "item_sizes|" + wname, lambda: assign(where), ("accept", want), k=[cls, la, lb])
+        # index arrays / masks longer than the sequence, referring to positions it lacks
+        for la in (0, 1, 2, 3):
+            a = mkstr(alph, la, 3)
+            for idx in ([0] * (la + 3), list(range(la)) * 3, [la - 1] * 5 if la else [], list(range(la)) + [la], [-la - 1] if True else None):
+                ok = all(-la <= i < la for i in idx)
+                J("Sequence.__getitem__", "index_longer_than_sequence", lambda: str(make_seq(cls, None, a)[np.array(idx, dtype=np.int64)]),
+                  ("accept", "".join(a[i] for i in idx)) if ok else ("refuse", False), k=[cls, la, idx])
+    # sequences over a larger / smaller alphabet as item and as + operand, both directions
+    pairs = [("nuc", "ACGT", "nuca", "ACGTN"), ("nuca", "NRY", "nuc", "TGCA"), ("nuc", "AC", "prot", "ACDEF"), ("prot", "MKW", "nuc", "ACGTACG")]
+    for c1, s1, c2, s2 in pairs:
+        a1, a2 = seq_alphabet(c1, None), seq_alphabet(c2, None)
+        for n2 in range(0, len(s2) + 1):
+            item = s2[:n2]
+
+            def go():
+                q = make_seq(c1, None, s1)
+                try:
+                    q[0:n2] = make_seq(c2, None, item)
+                except Exception:  # noqa: BLE001
+                    return ["refused", str(q)]
+                return ["ok", str(q)]
+            npos = len(range(len(s1))[0:n2])
+            fits = (n2 == npos or n2 == 1) and all(ch in a1 for ch in item)
+            if fits:
+                new = list(s1)
+                for j in range(npos):
+                    new[j] = item[j if n2 > 1 else 0]
+                want = ("accept", ["ok", "".join(new)])
+            else:
+                want = ("accept", ["refused", s1])
+            J("Sequence.__setitem__", "item_of_other_alphabet_sizes", go, want, k=[c1, s1, c2, item])
+    # codon table derivations with fewer / as many / more entries than the parent has
+    std = bs.CodonTable.load(1)
+    for nmap in (0, 1, 2, 63, 64):
+        ch = {c: ("W" if sm.STANDARD_CODE[c] != "W" else "Y") for c in sm.ALL_CODONS[:nmap]}
+        exp = {**sm.STANDARD_CODE, **ch}
+        J("CodonTable.with_codon_mappings", "n_entries", lambda: [dict(sorted(std.with_codon_mappings(ch).codon_dict().items())) == dict(sorted(exp.items())),
+                                                                  dict(sorted(std.codon_dict().items())) == dict(sorted(sm.STANDARD_CODE.items()))],
+          ("accept", [True, True]), k=nmap)
+    for nst in (1, 2, 3, 4, 64):
+        st = sm.ALL_CODONS[:nst]
+        J("CodonTable.with_start_codons", "n_starts", lambda: [sorted(std.with_start_codons(st).start_codons()), len(std.start_codons())],
+          ("accept", [sorted(st), 3]), k=nst)
+
+    # ---- G: ambient state as an event between calls (cwd, numpy error / print state, recursion-free) ----
+    def probe():
+        q = bs.NucleotideSequence("ATGGCTTAAATGC")
+        ps, pos = q.translate()
+        t11 = bs.CodonTable.load(11)
+        tn = bs.CodonTable.load("Yeast Mitochondrial")
+        K = KmerAlphabet(bs.LetterAlphabet("ACGT"), 3, spacing="1101")
+        g = bs.GeneralSequence(bs.Alphabet(["foo", 42, (1, 2), 3.5]), [3.5, "foo", (1, 2)])
+        return [[str(p) for p in ps], [list(map(int, x)) for x in pos], str(q.translate(complete=False, codon_table=t11)[0][0]),
+                sorted(t11.start_codons()), tn["CTG"], sorted(bs.CodonTable.default_table().start_codons()),
+                str(q.complement()), pl(K.create_kmers(q.code)), pl(K.split(20)), str(g), repr(g), pl(g.code),
+                plain(bs.LetterAlphabet("ACGT").decode_multiple(np.array([3, 0], dtype=np.int64))), len(bs.CodonTable.table_names()),
+                str(bs.CodonTable.default_table())[:12]]
+    o = sm.orfs("ATGGCTTAAATGC", sm.STANDARD_CODE, {"ATG"}, False)
+    ref = call(probe)
+    J("ambient", "reference_values", lambda: [ref[0], ref[1][0], ref[1][1], ref[1][6]],
+      ("accept", ["ok", [p for p, _ in o], [list(x) for _, x in o], "TACCGAATTTACG"]))
+    here = os.getcwd()
+    saved_err = np.geterr()
+    saved_print = np.get_printoptions()
+    events = {
+        "chdir_root": (lambda: os.chdir("/"), lambda: os.chdir(here)),
+        "chdir_package_dir": (lambda: os.chdir(os.path.dirname(bs.__file__)), lambda: os.chdir(here)),
+        "np_seterr_raise": (lambda: np.seterr(all="raise"), lambda: np.seterr(**saved_err)),
+        "np_seterr_ignore": (lambda: np.seterr(all="ignore"), lambda: np.seterr(**saved_err)),
+        "np_printoptions": (lambda: np.set_printoptions(threshold=2, edgeitems=1, precision=1, legacy="1.13"),
+                            lambda: np.set_printoptions(**saved_print)),
+        "env_lang": (lambda: os.environ.update(LANG="tr_TR.UTF-8", LC_ALL="C", PYTHONIOENCODING="ascii"), lambda: None),
+        "recursion_limit_low": (lambda: sys.setrecursionlimit(120), lambda: sys.setrecursionlimit(1000)),
+    }
+    names = list(events)
+    try:
+        for e1 in names:
+            for e2 in [None] + names:
+                if e2 == e1:
+                    continue
+                try:
+                    events[e1][0]()
+                    r1 = call(probe)
+                    if e2:
+                        events[e2][0]()
+                    r2 = call(probe)
+                finally:
+                    if e2:
+                        events[e2][1]()
+                    events[e1][1]()
+                r3 = call(probe)
+                J("ambient", "event_between_calls", lambda: [r1 == ref, r2 == ref, r3 == ref], ("accept", [True, True, True]), k=[e1, e2])
+    finally:
+        os.chdir(here)
+        np.seterr(**saved_err)
+        np.set_printoptions(**saved_print)
+        sys.setrecursionlimit(1000)
+
+    # ---- H: a value that can come from two places ----
+    for c in sm.NUC15:
+        for s in (c, "AC" + c, c + "GT"):
+            pure = all(x in sm.NUC4 for x in s)
+            for form in ("str", "list", "lower"):
+                arg = s.lower() if form == "lower" else (list(s) if form == "list" else s)
+                for flag in (None, True, False):
+                    if flag is False and not pure:
+                        want = ("refuse", True)
+                        f = lambda: str(bs.NucleotideSequence(arg, ambiguous=flag))  # noqa: E731
+                    else:
+                        exp_alph = sm.NUC15 if (flag or not pure) else sm.NUC4
+                        want = ("accept", None)
+                        f = lambda: observe_seq(bs.NucleotideSequence(arg, ambiguous=flag), exp_alph, list(s))  # noqa: E731
+                    J("NucleotideSequence()", "ambiguous_flag_vs_letters", f, want, k=[s, form, flag])
+    # explicit alphabet / class versus the alphabet of a Sequence given as the symbol source
+    sources = [("nuc", "ACCA"), ("nuca", "ACNA"), ("prot", "ACCA"), ("prot", "ACDA"), ("gen:TGCA", "ACCA"), ("gen:AC", "CAAC"), ("nuc", "")]
+    targets = ["nuc", "nuca", "nuca_flag", "prot", "gen:TGCA", "gen:AC", "gen:CA", "generic:CA"]
+
+    def build(spec, s):
+        if spec.startswith("gen:"):
+            return bs.GeneralSequence(bs.LetterAlphabet(spec[4:]), s), spec[4:]
+        if spec.startswith("generic:"):
+            return bs.GeneralSequence(bs.Alphabet(list(spec[8:])), s), spec[8:]
+        if spec == "nuca_flag":
+            return bs.NucleotideSequence(s, ambiguous=True), sm.NUC15
+        q = make_seq(spec, None, s if not isinstance(s, str) else s) if isinstance(s, str) else None
+        return q, seq_alphabet(spec, None)
+    for sspec, s in sources:
+        for tspec in targets:
+            def go():
+                src, _ = build(sspec, s)
+                if tspec.startswith("gen:"):
+                    t = bs.GeneralSequence(bs.LetterAlphabet(tspec[4:]), src)
+                elif tspec.startswith("generic:"):
+                    t = bs.GeneralSequence(bs.Alphabet(list(tspec[8:])), src)
+                elif tspec == "nuca_flag":
+                    t = bs.NucleotideSequence(src, ambiguous=True)
+                elif tspec in ("nuc", "nuca"):
+                    t = bs.NucleotideSequence(src)
+                else:
+                    t = bs.ProteinSequence(src)
+                return [plain(list(t.symbols)), plain(list(t.alphabet.get_symbols())), str(src)]
+            if tspec in ("nuc", "nuca"):
+                talph = sm.NUC4 if all(ch in sm.NUC4 for ch in s) else sm.NUC15
+                ok = all(ch in sm.NUC15 for ch in s)
+            elif tspec == "nuca_flag":
+                talph, ok = sm.NUC15, all(ch in sm.NUC15 for ch in s)
+            elif tspec == "prot":
+                talph, ok = sm.PROT24, all(ch in sm.PROT24 for ch in s)
+            else:
+                talph = tspec.split(":")[1]
+                ok = all(ch in talph for ch in s)
+            J("Sequence()", "symbols_from_sequence_of_other_alphabet", go,
+              ("accept", [list(s), list(talph), s]) if ok else ("refuse", True), k=[sspec, s, tspec])
+    # copy(new_seq_code) : the explicit code wins over the object's own; the object is left alone
+    for cls, s, codes in (("nuc", "ACGT", [3, 3]), ("nuc", "ACGT", []), ("prot", "MK", [23, 0, 1]), ("nuca", "NN", [0, 14, 4])):
+        alph = seq_alphabet(cls, None)
+        for dt in ("uint8", "int64"):
+            J("Sequence.copy", "explicit_code_vs_own", lambda: (lambda q: [str(q.copy(np.array(codes, dtype=dt))), str(q), type(q.copy(np.array(codes, dtype=dt))) is type(q)])(make_seq(cls, None, s)),
+              ("accept", ["".join(alph[c] for c in codes), s, True]), k=[cls, s, codes, dt])
+    # dtype argument of encode_multiple: honoured by Alphabet, documented as ignored by LetterAlphabet (values only)
+    A = bs.Alphabet(["x", "y", "z"])
+    for dt in ("uint8", "int32", "int64", "uint64"):
+        J("Alphabet.encode_multiple", "dtype_argument", lambda: (lambda r: [pl(r), r.dtype.name])(A.encode_multiple(["z", "x"], dtype=np.dtype(dt))), ("accept", [[2, 0], dt]), k=dt)
+        J("LetterAlphabet.encode_multiple", "dtype_argument_ignored", lambda: pl(bs.LetterAlphabet("xyz").encode_multiple("zx", dtype=np.dtype(dt))), ("accept", [2, 0]), k=dt)
+    # explicit codon table versus the module default, met_start versus complete
+    for s in ("TTGAAATAG", "ATGTTGTAA", "CTGATG"):
+        q = bs.NucleotideSequence(s)
+        for tid in ("default", 1, 11, "syn1"):
+            t, aa, starts = get_table(tid)
+            o = sm.orfs(s, aa, starts, False)
+            J("NucleotideSequence.translate", "explicit_table_vs_default", lambda: [[str(p) for p in q.translate(codon_table=t)[0]], [str(p) for p in q.translate()[0]],
+                                                                                    [str(p) for p in q.translate(complete=False, codon_table=None)[0]]],
+              ("accept", [[p for p, _ in o], [p for p, _ in sm.orfs(s, sm.STANDARD_CODE, {"ATG"}, False)]] + [[p for p, _ in sm.orfs(s, sm.STANDARD_CODE, {"ATG"}, False)]]), k=[s, tid])
+            if len(s) % 3 == 0:
+                J("NucleotideSequence.translate", "met_start_with_complete", lambda: [str(q.translate(complete=True, codon_table=t, met_start=m)) for m in (False, True)],
+                  ("accept", [sm.translate_complete(s, aa)] * 2), k=[s, tid])
+    # as_bytes of the single-symbol decode is undocumented: counted only
+    r = call(lambda: bs.LetterAlphabet("AC").decode(1, as_bytes=True))
+    judge(ctx, "LetterAlphabet.decode", "as_bytes_argument", lambda: aud_case(fam, label="as_bytes"), r, ("free",))
+
+    # ---- I: boundaries of selection policies ----
+    # common_alphabet(): "the alphabet from `alphabets` that extends all alphabets, None if no such alphabet exists"
+    pool = {"AC": bs.LetterAlphabet("AC"), "AC2": bs.LetterAlphabet("AC"), "ACG": bs.LetterAlphabet("ACG"), "ACGT": bs.Alphabet(list("ACGT")),
+            "CA": bs.LetterAlphabet("CA"), "ACT": bs.Alphabet(["A", "C", "T"])}
+    syms = {"AC": "AC", "AC2": "AC", "ACG": "ACG", "ACGT": "ACGT", "CA": "CA", "ACT": "ACT"}
+    for n in (0, 1, 2, 3):
+        for names_ in itertools.permutations(pool, n):
+            def go():
+                res = bs.common_alphabet([pool[x] for x in names_])
+                if res is None:
+                    return None
+                return ["".join(res.get_symbols()), any(res is pool[x] for x in names_)]
+            winners = [x for x in names_ if all(syms[x][:len(syms[y])] == syms[y] for y in names_)]
+            if not names_:
+                want = ("either", None)
+            elif winners:
+                want = ("accept", [syms[winners[0]], True])      # all winners carry the same symbols (ties = equal alphabets)
+            else:
+                want = ("accept", None)
+            J("common_alphabet", "ties_none_first_not_winner", go, want, k=list(names_))
+    # first stop / first start selection at its boundaries, with tables where everything or nothing is a stop / start
+    aa_allstop = {c: ("*" if c != "ATG" else "M") for c in sm.ALL_CODONS}
+    aa_nostop, _ = synthetic("syn4")
+    tabs = {"all_stop_but_ATG": (aa_allstop, ["ATG"]), "no_stop_all_start": (aa_nostop, list(sm.ALL_CODONS)),
+            "no_stop_one_start": (aa_nostop, ["AAA"]), "std_all_sense_start": (dict(sm.STANDARD_CODE), [c for c in sm.ALL_CODONS if sm.STANDARD_CODE[c] != "*"])}
+    for tname, (aa, st) in tabs.items():
+        t = bs.CodonTable(dict(aa), list(st))
+        for L in range(0, 8):
+            for p in itertools.product("ATG" if L > 5 else "ATGA"[:3] + "C" if L > 3 else "ACGT", repeat=L):
+                s = "".join(p)
+                for met in (False, True):
+                    o = sm.orfs(s, aa, set(st), met)
+                    r = call(lambda: (lambda ps, pos: [[str(x) for x in ps], [list(map(int, x)) for x in pos]])(*bs.NucleotideSequence(s).translate(codon_table=t, met_start=met)))
+                    judge(ctx, "NucleotideSequence.translate", "boundary_table|" + tname, lambda: aud_case(fam, label="boundary_table", table=tname, s=s, met=met), r,
+                          ("accept", [[x for x, _ in o], [list(x) for _, x in o]]), 1 if o else 0)
+    # alphabets with repeated symbols: which of the tied codes encode() picks is outside the statement (bijection) - counted
+    for symsd in (["A", "B", "A"], ["A", "A"], [1, True, 1.0]):
+        r = call(lambda: [bs.Alphabet(symsd).encode(symsd[0]), bs.Alphabet(symsd).decode(0)])
+        judge(ctx, "Alphabet.encode", "repeated_symbol", lambda: aud_case(fam, label="repeated"), r, ("free",))
+    ctx.sample(aud_case(fam, site="ambient", label="event_between_calls", k=["chdir_root", "np_seterr_raise"]))
+
+
+AUDIT_FAMS["third"] = fam_third
